@@ -201,8 +201,8 @@ fn build_binary_op(
             let field_ty = &field.field.ty;
             let lhs = with_ref(&member(quote!(self), field), lhs_is_ref);
             let rhs = with_ref(&member(quote!(__rhs), field), rhs_is_ref);
-            let lhs_ty = with_ref(field_ty, lhs_is_ref);
-            let rhs_ty = with_ref(field_ty, rhs_is_ref);
+            let lhs_ty = with_ref_type(field_ty, lhs_is_ref);
+            let rhs_ty = with_ref_type(field_ty, rhs_is_ref);
             values.push(quote!(<#lhs_ty as #trait_<#rhs_ty>>::#func_name(#lhs, #rhs)));
             field.push_bounds_to(use_bounds, kind, &mut wcb);
         }
@@ -255,7 +255,7 @@ fn build_assign_op(
             let field_ty = &field.field.ty;
             let lhs = member(quote!(self), field);
             let rhs = with_ref(&member(quote!(__rhs), field), rhs_is_ref);
-            let rhs_ty = with_ref(field_ty, rhs_is_ref);
+            let rhs_ty = with_ref_type(field_ty, rhs_is_ref);
             exprs.push(quote!(<#field_ty as #trait_<#rhs_ty>>::#func_name(&mut #lhs, #rhs)));
             field.push_bounds_to(use_bounds, kind, &mut wcb);
         }
@@ -301,7 +301,7 @@ fn build_unary_op(
         for field in fields {
             let field_ty = &field.field.ty;
             let lhs = with_ref(&member(quote!(self), field), lhs_is_ref);
-            let lhs_ty = with_ref(field_ty, lhs_is_ref);
+            let lhs_ty = with_ref_type(field_ty, lhs_is_ref);
             values.push(quote!(<#lhs_ty as #trait_>::#func_name(#lhs)));
             field.push_bounds_to(use_bounds, kind, &mut wcb);
         }
@@ -841,6 +841,14 @@ fn build_deref_for_struct(
     })
 }
 
+/// `&ty`; `&dyn A + B` is not a type, `&(dyn A + B)` is.
+fn with_ref_type(ty: &Type, is_ref: bool) -> TokenStream {
+    match ty {
+        Type::TraitObject(t) if is_ref && t.bounds.len() > 1 => quote!(&(#ty)),
+        Type::ImplTrait(t) if is_ref && t.bounds.len() > 1 => quote!(&(#ty)),
+        _ => with_ref(ty, is_ref),
+    }
+}
 fn with_ref(source: &impl ToTokens, is_ref: bool) -> TokenStream {
     if is_ref {
         quote!(&#source)
